@@ -56,6 +56,10 @@ def run(report, db, tier):
     plugin_arm(report, db, M, P, fi, arms)
     success_arm(report, db, M, fi, arms)
     disconnect_arm(report, db, S, M, fi, arms)
+    R1f = report.rule('R10.1f', 'the forced write of the encryption response '
+                      'is synchronous: write_packet(force=True) returns '
+                      'only after _write_packet ran under the lock')
+    shared.forced_write_is_synchronous(report, R1f, db, S, M)
     # after the compression arm, every following frame goes through the
     # reader's compressed branch: it must accept what the format allows
     from .c01 import reader as frame_reader
